@@ -156,7 +156,21 @@ class Ctx:
         the last one is the property file."""
         ok, log = coq_make()
         propfile = COQ / files[-1]
-        missing = [f for f in files if not (COQ / f).with_suffix('.vo').exists()]
+        missing = []
+        for f in files:   # a .vo must be newer than its .v and than the .vo of the PV files it imports
+            v, vo = COQ / f, (COQ / f).with_suffix('.vo')
+            if (not vo.exists()) or vo.stat().st_mtime < v.stat().st_mtime:
+                missing.append(f)
+                continue
+            req = ' '.join(re.findall(r'(?m)^\s*(?:From\s+PV\s+)?Require\s+(?:Import|Export)?\s*([^.]*(?:\.[A-Za-z_][^.]*)*)\.\s*$',
+                                      v.read_text()))
+            for g in files:
+                mod = Path(g).stem
+                if g != f and re.search(r'(?<![\w])' + re.escape(mod) + r'(?![\w])', req):
+                    gvo = (COQ / g).with_suffix('.vo')
+                    if g in missing or (gvo.exists() and vo.stat().st_mtime < gvo.stat().st_mtime - 1e-3):
+                        missing.append(f)
+                        break
         bad_kw = forbidden_scan()
         thms = re.findall(r'^\s*(?:Theorem|Lemma|Corollary)\s+(\w+)', propfile.read_text(), re.M)
         self.obligations += len(thms)
